@@ -1,5 +1,6 @@
 import NxProofs.Cipher
 import NxProofs.Refine
+import NxProofs.RefineSend
 import NxProps.C04
 /-!
 # C01 — PRUDP reliable channel: in-order, exactly-once, uncorrupted delivery
@@ -25,8 +26,11 @@ this channel on its receive path: `window_update_natural` (the sliding window do
 EOF flag = closed, queue = delivered messages, fragment buffer, decryption position) and `l1_process_reliable_refines_l2`
 (`process_reliable` = `Receiver.arrive`). Hypotheses: the substream's lists exist (`SubWF`), the window holds reliable
 packets of that substream (`GoodWin`, preserved), compression off (`decompress = id`; the zlib framing is C08's).
-The send side (`Conn.send` emits `wiresOf … (split …)`) and the network between two endpoints are tied by the L1/L2
-correspondence runs only.
+**L1 → L2 (send side).** `l1_send_refines_l2`: what `send(data, substream)` hands to the transport projects (`wireOf`) to a
+prefix of exactly the wires `Sender.send` appends to its log for this message — same sequence ids, fragment ids and ciphertext
+at the same cipher positions — and to all of them when no exception occurred and the link is up (an exception or a dead link can
+only cut the emission short). The network between two endpoints (which copies of which wires arrive when) is the L2 model's
+adversary; that the real network layer hands the emitted bytes to the peer's `handle` is what the correspondence runs tie.
 -/
 namespace Nx.C01
 open Nx Nx.Chan
@@ -147,6 +151,23 @@ theorem l1_process_reliable_refines_l2 (env : Env) (hdec : ∀ b, env.decompress
       RRel (c.processReliable env p).c sub (Receiver.arrive (cipherOf c sub) ⟨w.map wireOf, nrel, core⟩ (wireOf p)).core ∧
       SubWF (c.processReliable env p).c sub ∧ cipherOf (c.processReliable env p).c sub = cipherOf c sub :=
   processReliable_refines env hdec sub c w core nrel p hw hwl hwin hgw hp hr hlive
+
+open Nx.L1 Nx.Prudp in
+theorem l1_send_refines_l2 (env : Env) (hcomp : ∀ b, env.compress b = b) (now : Time) (c : Conn) (data : Bytes) (sub n pos : Nat)
+    (hs : SRel c sub n pos) :
+    (emitted (c.send env now data sub)).map wireOf <+: wiresOf (cipherOf c sub) n pos (split c.fragmentSize data) ∧
+    ((c.send env now data sub).err = none → (c.send env now data sub).c.linkUp = true →
+      (emitted (c.send env now data sub)).map wireOf = wiresOf (cipherOf c sub) n pos (split c.fragmentSize data) ∧
+      SRel (c.send env now data sub).c sub (iterSeq (split c.fragmentSize data).length n)
+        (pos + wiresLen (wiresOf (cipherOf c sub) n pos (split c.fragmentSize data)))) :=
+  send_refines env hcomp now c data sub n pos hs
+
+/-! non-vacuity of the send side: a fresh connection's substream 0 has next id 1 at cipher position 0 -/
+open Nx.L1 Nx.Prudp in
+example :
+    let c := Conn.new C04.toyEnv (some 1) 1 2 3 ("10.0.0.2", 1) 15 10 ("10.0.0.1", 2) 1 10
+    SRel c 0 1 0 ∧ (∀ b, C04.toyEnv.compress b = b) :=
+  ⟨⟨rfl, ⟨_, rfl, fun _ => rfl⟩⟩, fun _ => rfl⟩
 
 /-! non-vacuity: a fresh connection and the initial L2 core are related, its substream 0 is well-formed, its window is good -/
 open Nx.L1 Nx.Prudp in
